@@ -116,7 +116,7 @@ TypeOf(e, ev) ==
     [] e.k = "id" ->
          IF Bound(ev, e.n) THEN Cell(ev, e.n).t
          ELSE IF e.n \in DOMAIN P.funcs THEN FnType(P.funcs[e.n])
-         ELSE IF e.n \in {"len", "append", "panic", "println"} \cup IntTypes \cup {"string"} THEN TBuiltin(e.n)
+         ELSE IF e.n \in {"len", "append", "panic", "println"} \cup IntTypes \cup FloatTypes \cup {"string"} THEN TBuiltin(e.n)
          ELSE TErr("undefined: " \o e.n)
     [] e.k = "un" ->
          LET t == TypeOf(e.e, ev) IN
@@ -192,6 +192,7 @@ TypeOf(e, ev) ==
                                       ELSE IF Len(ats) = 2 /\ ats[1].k = "untyped" /\ ats[1].c = "nil" THEN TErr("append to untyped nil") ELSE TErr("append arguments")
                 [] ft.n \in {"panic", "println"} -> TVoid
                 [] ft.n \in IntTypes -> IF Len(ats) = 1 /\ ((ats[1].k = "named" /\ ats[1].n \in IntTypes) \/ (ats[1].k = "untyped" /\ ats[1].c = "int")) THEN TNamed(ft.n) ELSE TErr("conversion")
+                [] ft.n \in FloatTypes -> IF Len(ats) = 1 /\ (IsNumeric(ats[1]) \/ (ats[1].k = "untyped" /\ ats[1].c \in {"int", "float"})) THEN TNamed(ft.n) ELSE TErr("conversion")
                 [] ft.n = "string" -> IF Len(ats) = 1 /\ ats[1].k = "named" /\ ats[1].n \in (IntTypes \cup {"string"}) THEN TNamed("string") ELSE TErr("conversion to string")
                 [] ft.n = "fmt.Sprintf" -> IF Len(ats) >= 1 THEN TNamed("string") ELSE TErr("Sprintf")
                 [] ft.n \in {"fmt.Print", "fmt.Println"} -> TVoid
@@ -200,7 +201,7 @@ TypeOf(e, ev) ==
     [] OTHER -> TErr("expression kind")
 
 IsValueBuiltinCall(e, ev) ==
-  e.k = "call" /\ e.f.k = "id" /\ ~Bound(ev, e.f.n) /\ e.f.n \notin DOMAIN P.funcs /\ e.f.n \in ({"len", "append", "string"} \cup IntTypes)
+  e.k = "call" /\ e.f.k = "id" /\ ~Bound(ev, e.f.n) /\ e.f.n \notin DOMAIN P.funcs /\ e.f.n \in ({"len", "append", "string"} \cup IntTypes \cup FloatTypes)
 
 \* ---------------------------------------------------------------- terminating statements
 RECURSIVE Terminating(_), HasBreak(_)
